@@ -154,17 +154,27 @@ pub fn install_panic_hook() {
         // find the innermost frame inside /repo (site of the defect) and its function name
         let bt = std::backtrace::Backtrace::force_capture().to_string();
         let mut prev_sym = String::new();
-        let mut func = String::new();
+        let mut funcs: Vec<String> = vec![];
         let mut repo_loc = String::new();
+        let shorten = |func: &str| -> String {
+            // last two path segments without the hash suffix
+            let segs = func.split("::").filter(|p| !(p.starts_with('h') && p.len() == 17)).collect::<Vec<_>>();
+            let short = segs.iter().rev().take(2).rev().cloned().collect::<Vec<_>>().join("::");
+            short.chars().filter(|c| c.is_alphanumeric() || *c == '_' || *c == ':').take(48).collect()
+        };
         for line in bt.lines() {
             let t = line.trim();
             if let Some(rest) = t.strip_prefix("at ") {
-                if rest.starts_with("/repo/") && func.is_empty() {
-                    func = prev_sym.clone();
-                    // strip column
-                    let mut parts: Vec<&str> = rest.rsplitn(2, ':').collect();
-                    parts.reverse();
-                    repo_loc = parts[0].to_string();
+                if rest.starts_with("/repo/") && funcs.len() < 2 {
+                    let f = shorten(&prev_sym);
+                    if funcs.last() != Some(&f) {
+                        funcs.push(f);
+                    }
+                    if repo_loc.is_empty() {
+                        let mut parts: Vec<&str> = rest.rsplitn(2, ':').collect();
+                        parts.reverse();
+                        repo_loc = parts[0].to_string();
+                    }
                 }
             } else if let Some((_, sym)) = t.split_once(": ") {
                 prev_sym = sym.to_string();
@@ -173,10 +183,7 @@ pub fn install_panic_hook() {
         if !loc.starts_with("/repo/") && !loc.contains("/verif/engine/") && !repo_loc.is_empty() {
             loc = repo_loc;
         }
-        // short function name: last two path segments without generics/hash
-        let short = func.split("::").filter(|p| !p.starts_with('h') || p.len() != 17).collect::<Vec<_>>();
-        let short = short.iter().rev().take(2).rev().cloned().collect::<Vec<_>>().join("::");
-        let short: String = short.chars().filter(|c| c.is_alphanumeric() || *c == '_' || *c == ':').take(60).collect();
+        let short = funcs.join("<");
         LAST_PANIC.with(|p| *p.borrow_mut() = Some((format!("{loc}#{short}"), msg)));
     }));
 }
@@ -370,6 +377,9 @@ impl Ctx {
     fn record_lazy(&mut self, h: u64, ev: &Eval, case: &dyn Fn() -> Value) {
         if ev.discard {
             *self.st.classes.entry("discarded".into()).or_insert(0) += 1;
+            for c in &ev.classes {
+                *self.st.classes.entry(c.to_string()).or_insert(0) += 1;
+            }
             return;
         }
         self.st.evaluations += 1;
